@@ -420,3 +420,34 @@ def field_reads(F, owner, name):
                 dest = st["lhs"]["l"]
         out.append((b, bb, where, st, dest, acc))
     return out
+
+
+def direct_place(b, op, depth=8):
+    """Follow single-definition copies, moves, reborrows and casts from an operand back to the place it
+    denotes (no slicing): returns the place or None."""
+    pl = op_place(op) if isinstance(op, dict) and ("c" in op or "m" in op) else op
+    while pl is not None and depth > 0:
+        depth -= 1
+        if any(isinstance(e, dict) and "f" in e for e in pl["p"]):
+            return pl
+        sd = b.single_def(pl["l"])
+        if not sd or sd[0] != "stmt" or b.local_name(pl["l"]):
+            return pl
+        rv = sd[3].get("rv") or {}
+        if "ref" in rv:
+            pl = rv["ref"]
+        elif "use" in rv and op_place(rv["use"]) is not None:
+            pl = op_place(rv["use"])
+        elif "cast" in rv and op_place(rv["cast"]) is not None:
+            pl = op_place(rv["cast"])
+        else:
+            return pl
+    return pl
+
+
+def direct_field(b, op):
+    pl = direct_place(b, op)
+    if pl is None:
+        return None
+    fs = place_fields(pl)
+    return fs[-1] if fs else None
